@@ -156,6 +156,7 @@ fn cmd_sim(a: &Args) -> i32 {
                         "C12" => "C12.isolated_histories",
                         "C17" => "C17.deadline",
                         "C18" => "C18.equal_traces",
+                        "C16" if erased => "C16.equal_traces",
                         _ => "C03.complete",
                     };
                     let v = VOut {
